@@ -45,7 +45,9 @@ M = [
  ("c06-cap-2x", "C06", "caught", "store/trigram_index.rs", "size * 10, |(_, count1)", "size * 2, |(_, count1)"),
  # ---- C07
  ("c07-rating-ignored", "C07", "caught", "search/score.rs",
-  "    hit.rating as isize\n", "    (hit.rating / 8) as isize\n"),
+  "    (hit.rating ^ top_bit) as isize\n", "    ((hit.rating / 8) ^ top_bit) as isize\n"),
+ ("c12-revert-rating-fix", "C12", "caught", "search/score.rs",
+  "    (hit.rating ^ top_bit) as isize\n", "    hit.rating as isize\n"),
  ("c07-first-arrivals-win", "C07", "caught", "utils/limitsort.rs",
   "                    sort(buffer);\n                    buffer.truncate(limit);", "                    buffer.truncate(limit);"),
  # ---- C12
